@@ -19,14 +19,17 @@ class Roles:
                  [qtype(p) for p in prog.params(f)] == ["struct instr *", "uint8_t *"]]
         self.encode = self._one(cands, "the encoder entry (struct instr *, uint8_t *)", prefer="assemble_asm")
         self.emitters = sorted(n for n in lib if self.encode in self.g.get(n, ()) and n != self.encode)
-        if len(self.emitters) < 3:
-            raise AnalysisBroken("expected the three per-instruction emitters calling %s, found %s" % (self.encode, self.emitters))
+        if len(self.emitters) < 2:
+            raise AnalysisBroken("expected the per-instruction emitters calling %s, found %s" % (self.encode, self.emitters))
         # room check: called by every emitter, compares with buffer_len
         common = set.union(*[set(self.g[e]) for e in self.emitters])
         rc = [n for n in common if n in lib and any(a.field == "buffer_len" and a.ctx == "r" for a in EFF.accesses(prog.body(lib[n])))]
         self.room_check = self._one(rc, "the room check (called by the emitters, reads buffer_len)", prefer="check_len_or_resize")
-        # driver: calls all emitters
-        dr = [n for n in lib if all(e in self.g.get(n, ()) for e in self.emitters)]
+        # driver: has a loop and calls all emitters (it may itself be one of them when the plain emitter was inlined into it)
+        def has_loop(n):
+            return any(m.get("kind") in ("WhileStmt", "ForStmt", "DoStmt") for m in walk(prog.body(lib[n])))
+        dr = [n for n in lib if has_loop(n) and all(e in self.g.get(n, ()) for e in self.emitters if e != n) and
+              len([e for e in self.emitters if e != n and e in self.g.get(n, ())]) >= 2]
         self.driver = self._one(dr, "the per-line driver (calls all emitters)", prefer="assemble_all")
         # padding writer: non-static function in the encoder's unit, called by an emitter, taking (uint8_t *, unsigned)
         pw = [n for n, f in lib.items() if n != self.encode and any(n in self.g[e] for e in self.emitters) and
@@ -246,6 +249,9 @@ class GateDomain:
         if k == "CallExpr":
             for a in call_args(e0):
                 s = self.eval(a, s)
+                a0 = strip(a, casts=True)
+                if a0.get("kind") == "UnaryOperator" and a0.get("opcode") == "&" and self._is_pos(kids(a0)[0]):
+                    s = "unchecked"      # the callee may move the position
             cn = callee_name(e0)
             if cn in (self.roles.encode, self.roles.padder):
                 self.stores.append(e0)
@@ -291,19 +297,32 @@ class GateDomain:
         self.rets.append((n, s))
 
 
+def position_of(prog, roles, em):
+    """(name, is_pointer_parameter) of the write position in an emitter: its `unsigned int *` parameter, or - in the driver when
+    the plain emitter was inlined into it - the local whose address the driver hands to the other emitters"""
+    f = prog.fn(em)
+    cand = [p["name"] for p in prog.params(f) if qtype(p) == "unsigned int *"]
+    if len(cand) == 1:
+        return cand[0], True
+    locs = set()
+    for c in walk(prog.body(f)):
+        if c.get("kind") == "CallExpr" and callee_name(c) in roles.emitters:
+            for a in call_args(c):
+                a0 = strip(a, casts=True)
+                if a0.get("kind") == "UnaryOperator" and a0.get("opcode") == "&" and qtype(strip(kids(a0)[0])) == "unsigned int":
+                    locs.add(ref_name(strip(kids(a0)[0])))
+    if len(locs) == 1:
+        return locs.pop(), False
+    raise AnalysisBroken("emitter %s: position parameter not identified (%s)" % (em, [qtype(p) for p in prog.params(f)]))
+
+
 def gate_rule(chk, prog, roles, rule="GATE"):
     lib = prog.lib_functions()
     n = 0
     for em in roles.emitters:
         f = lib[em]
-        # the position parameter: the pointer-to-unsigned parameter
-        pos = [p["name"] for p in prog.params(f) if qtype(p).replace("unsigned int", "unsigned").strip() in ("unsigned *", "int *", "size_t *")
-               or qtype(p) in ("unsigned int *",)]
-        pos = [p for p in pos if p not in ("chunk_brks",)]
-        cand = [p["name"] for p in prog.params(f) if qtype(p) == "unsigned int *"]
-        if len(cand) != 1:
-            raise AnalysisBroken("emitter %s: position parameter not identified (%s)" % (em, [qtype(p) for p in prog.params(f)]))
-        dom = GateDomain(prog, roles, em, cand[0])
+        posname, _ = position_of(prog, roles, em)
+        dom = GateDomain(prog, roles, em, posname)
         Flow(dom).function(prog, f, "unchecked")
         bad = {id(c): t for c, t in dom.viol}
         for c in {id(x): x for x in dom.stores}.values():
